@@ -301,7 +301,7 @@ Lemma cons_run_valid t tp g c :
   writes (snd (cons_run t tp g c)) = [].
 Proof.
   intros V W. unfold topo_valid in V. apply andb_true_iff in V. destruct V as [Vd Vm].
-  destruct c as [| | | | |q a| | | | | |[|]]; simpl; try (split; [reflexivity | split; reflexivity]);
+  destruct c as [| | | | |q a| | | | | |[|]| |]; simpl; try (split; [reflexivity | split; reflexivity]);
     try (simpl in W; rewrite W; simpl; split; [reflexivity | split; reflexivity]).
   - (* CDistGet *)
     pose proof (dists_refresh_valid t (t_dists tp) Vd) as [E1 E2].
@@ -617,7 +617,7 @@ Qed.
 
 Lemma fp_cons_run t tp g c : fp_all t (snd (cons_run t tp g c)) = true.
 Proof.
-  destruct c as [| | | | |q a| | | | | |[|]]; cbn [cons_run]; try solve [fp_simpl];
+  destruct c as [| | | | |q a| | | | | |[|]| |]; cbn [cons_run]; try solve [fp_simpl];
     try solve [destruct (mem_static SSynthWarned (g_checked g)); fp_simpl].
   - pose proof (fp_dists_refresh t (t_dists tp)) as P. destruct (dists_refresh t (t_dists tp)) as [ds e]. cbn [snd] in *.
     fp_auto.
@@ -952,7 +952,7 @@ Qed.
 
 Lemma cons_run_backend t tp g c : same_backend g (snd (fst (fst (cons_run t tp g c)))).
 Proof.
-  destruct c as [| | | | |q a| | | | | |[|]]; cbn [cons_run]; try (split; reflexivity).
+  destruct c as [| | | | |q a| | | | | |[|]| |]; cbn [cons_run]; try (split; reflexivity).
   - destruct (dists_refresh t (t_dists tp)) as [ds e]. split; reflexivity.
   - destruct (nth_error (t_mattrs tp) a) as [m|]; [|split; reflexivity]. destruct (a_conv m); [split; reflexivity|].
     destruct (ma_refresh_one t a m) as [m' e]. split; reflexivity.
@@ -999,7 +999,7 @@ Lemma cons_run_local t tp g g' c :
   fst (fst (fst (cons_run t tp g c))) = fst (fst (fst (cons_run t tp g' c))) /\
   snd (fst (cons_run t tp g c)) = snd (fst (cons_run t tp g' c)).
 Proof.
-  destruct c as [| | | | |q a| | | | | |[|]]; cbn [cons_run]; try (split; reflexivity).
+  destruct c as [| | | | |q a| | | | | |[|]| |]; cbn [cons_run]; try (split; reflexivity).
   - destruct (dists_refresh t (t_dists tp)) as [ds e]. split; reflexivity.
   - destruct (nth_error (t_mattrs tp) a) as [m|]; [|split; reflexivity]. destruct (a_conv m); [split; reflexivity|].
     destruct (ma_refresh_one t a m) as [m' e]. split; reflexivity.
